@@ -186,19 +186,26 @@ class Extractor:
                 cur = st
                 while True:
                     name = None
+                    neg = False
                     t = cur.test
-                    if isinstance(t, ast.Compare) and len(t.ops) == 1 and isinstance(t.ops[0], ast.Eq) and norm(t.left) == "extension_type":
-                        name = self._ext_name(t.comparators[0])
-                    if name is not None:
-                        table[name] = _flat(self.block(cur.body))
-                    else:
+                    if isinstance(t, ast.Compare) and len(t.ops) == 1 and isinstance(t.ops[0], (ast.Eq, ast.NotEq)):
+                        a, b = t.left, t.comparators[0]
+                        if norm(b) == "extension_type" and norm(a).startswith("ExtensionType."):
+                            a, b = b, a  # mirrored comparison
+                        if norm(a) == "extension_type":
+                            name = self._ext_name(b)
+                            neg = isinstance(t.ops[0], ast.NotEq)
+                    if name is None:
                         # a guard such as `if after_psk: raise` or the trailing length check
                         break
-                    if len(cur.orelse) == 1 and isinstance(cur.orelse[0], ast.If):
-                        cur = cur.orelse[0]
+                    # `if type != X: <rest> else: <X>` is the same dispatch with the branches swapped
+                    mine, rest = (cur.orelse, cur.body) if neg else (cur.body, cur.orelse)
+                    table[name] = _flat(self.block(mine))
+                    if len(rest) == 1 and isinstance(rest[0], ast.If):
+                        cur = rest[0]
                         continue
-                    if cur.orelse:
-                        table["*"] = _flat(self.block(cur.orelse))
+                    if rest:
+                        table["*"] = _flat(self.block(rest))
                     break
         return ("EXTS", table)
 
